@@ -34,7 +34,7 @@ fn run(api: usize, file: &[u8], payload_at: usize, props: Props, dict: u32, len:
             Ok(mut d) => sut::raw_lzma_decompress(&mut d, &file[payload_at..], ReaderKind::Slice, &sink, &obs).verdict,
             Err(v) => v,
         },
-        _ => match sut::raw_lzma_new(props.lc, props.lp, props.pb, dict, Some(len), memlimit) {
+        _ => match sut::raw_lzma_new(props.lc, props.lp, props.pb, dict, ctor_size(len, memlimit), memlimit) {
             Ok(mut d) => {
                 // an earlier call on the same object (complete, or cut short so that it fails),
                 // then reset: the limit given at construction must still be in force
@@ -56,6 +56,18 @@ fn run(api: usize, file: &[u8], payload_at: usize, props: Props, dict: u32, len:
     let peak = crate::alloc::usage().peak;
     let o = obs.borrow();
     Run { verdict, out: sink.bytes(), win_max: o.win_max, over_limit_events: o.win_over_limit, peak_heap: peak }
+}
+
+/// Declared size the reused raw decoder object is CONSTRUCTED with (the judged call always
+/// runs after reset(Some(Some(len)))): the same, a tiny one, none, a larger one. R19-C10 cached
+/// a "this window can never exceed the limit" verdict from the construction-time size.
+fn ctor_size(len: u64, memlimit: Option<usize>) -> Option<u64> {
+    match (len / 3 + memlimit.unwrap_or(7) as u64 % 5) % 4 {
+        0 => Some(len),
+        1 => Some(len.min(1 + len % 7)),
+        2 => None,
+        _ => Some(len * 2 + 5),
+    }
 }
 
 fn fam_limits(ctx: &CaseCtx, cov: &mut Cov) -> CaseOut {
@@ -159,6 +171,9 @@ fn fam_limits(ctx: &CaseCtx, cov: &mut Cov) -> CaseOut {
         out.evals += 1;
         cov.inc("limit", li as u32);
         cov.inc(if m >= need { "limit_sufficient" } else { "limit_too_small" }, api as u32);
+        if api == 3 {
+            cov.name(&format!("reused_object_constructed_for.{}", match ctor_size(len, Some(m)) { Some(x) if x == len => "same_size", Some(x) if x < len => "smaller_size", Some(_) => "larger_size", None => "unknown_size" }), 1);
+        }
         out.nontrivial.push(case_hash(&[&file, &[api as u8], &m.to_le_bytes()]));
         let what = format!(
             "{}: dict {} output {} bytes (window needed {}), limit {} = {} [lc{} lp{} pb{}]",
@@ -233,7 +248,7 @@ pub fn monitor(tier: Tier) -> Monitor {
     Monitor {
         id: "C10",
         level: "exploration",
-        rule: "per valid stream (header dictionary field 0 / 1 / 100 / 4095 / 4096 / 4097 / 5000 / 8192 / 64 KiB / 1 MiB - values below 4096 act as 4096 except in the raw decoder -, output 0 .. 3 x dict with emphasis on the wrap point) an unlimited run measures the window actually needed (WinGrow hook), then limits {0, 1, need-1, need, need+1, dict-1, dict, dict+1, usize::MAX, random, 2^32, 2^32+1, header field - 1, header field} are applied through the one-shot API, Stream (random chunking), the raw decoder, and a raw decoder object that already served an earlier (complete or failing) call and was reset: m >= need must reproduce the unlimited result, m < need must fail, and the WinGrow hook must never report a buffer above m; a quarter of the runs use a non-storing sink and the counting allocator as a coarse second witness; distinct by hash of (file, api, limit)",
+        rule: "per valid stream (header dictionary field 0 / 1 / 100 / 4095 / 4096 / 4097 / 5000 / 8192 / 64 KiB / 1 MiB - values below 4096 act as 4096 except in the raw decoder -, output 0 .. 3 x dict with emphasis on the wrap point) an unlimited run measures the window actually needed (WinGrow hook), then limits {0, 1, need-1, need, need+1, dict-1, dict, dict+1, usize::MAX, random, 2^32, 2^32+1, header field - 1, header field} are applied through the one-shot API, Stream (random chunking), the raw decoder, and a raw decoder object (constructed for the same, a tiny, an unknown or a larger declared size) that already served an earlier (complete or failing) call and was reset to the real size: m >= need must reproduce the unlimited result, m < need must fail, and the WinGrow hook must never report a buffer above m; a quarter of the runs use a non-storing sink and the counting allocator as a coarse second witness; distinct by hash of (file, api, limit)",
         assumptions: vec![
             "need = the largest window length reported by the hook in the unlimited run; a warning is recorded if it differs from min(dict, produced)".into(),
             "allocator bound is deliberately loose (3 x limit + literal table + 1 MiB): Vec growth doubles".into(),
